@@ -215,7 +215,7 @@ func (f *verifREtcd) settle(want int) {
 	// let the watchers finish the empty response and park in their select again
 	// (cluster.reload waits for them while holding cluster.lock, which
 	// handleWatchEvents needs: a reload that overtakes a response in flight is a
-	// different matter, see "outside")
+	// different matter: H15g)
 	verifYield()
 }
 
